@@ -282,6 +282,17 @@ func ctxDone(ctx context.Context) bool {
 	}
 }
 
+// ctxDoneSoon is for contexts that are expected to be done: quic-go fails pending calls first and
+// cancels the connection context a moment later (closing sequence of connection.go), so "done
+// right after a call failed" is a race on the real stack. Bounded wait; hysteria only uses the
+// context through http3's accept loop, which tolerates either order (http3/server.go:512-540).
+func ctxDoneSoon(st stack, ctx context.Context) bool {
+	for i := 0; i < 120 && !ctxDone(ctx); i++ {
+		st.settle()
+	}
+	return ctxDone(ctx)
+}
+
 type scriptAbort struct{ why string }
 
 // must aborts the script (both stacks log the same line) when a set-up step fails.
